@@ -1,18 +1,63 @@
 (* C17 - Receiver memory is bounded by configuration, not by traffic. *)
-From FluteV Require Import Model.ObjRecv Model.Recv Spec.RecvSpec Spec.C17Spec Proofs.RecvProofs.
+From FluteV Require Import Model.ObjRecv Model.Recv Spec.RecvSpec Spec.C17Spec Proofs.RecvProofs Proofs.C17Full.
 Open Scope N_scope.
 
-(* Full statement (kept visible): in every state reachable by any event sequence, P_C17_bounds
-   holds (per object: cached packets <= cache size + one packet, allocated blocks <= cache size +
-   two blocks; failed list <= max_objects_error; current FDT instances <= 10).  Evaluated on the
-   model state after every event of every run together with P_C17_heap / P_C17_heap_cfg, which tie
-   the ledger to the measured live heap of the implementation (the heap itself is measured, not
-   proved).  Proved below at the level of one object and of the failed list - partial. *)
-Definition C17_bounds_full : Prop :=
+(* Full statement, proved: in every state reachable by any event sequence with bounded inputs,
+   P_C17_bounds holds (per object: cached packets <= cache size + one packet, allocated blocks <=
+   cache size + two blocks; failed list <= max_objects_error; current FDT instances <= 10).
+   Bounded inputs (C17_inputs_bounded, Proofs/C17Full.v): every pushed datagram of an object other
+   than the FDT is at most maxpkt bytes long; every OTI carried by such a datagram or announced
+   by an FDT instance (the parse_fdt oracle) has B * E <= maxblk; for FEC 129, whose block length
+   is read from each packet, source block length field * E <= maxblk.
+   P_C17_heap / P_C17_heap_cfg tie the ledger to the measured live heap of the implementation
+   (the heap itself is measured, not proved). *)
+Theorem C17_bounds_full :
   forall E parse_fdt cfg evs maxpkt maxblk,
-    (* every pushed datagram is at most maxpkt long, every block at most maxblk *) True ->
+    C17_inputs_bounded parse_fdt evs maxpkt maxblk ->
     let '(_, r, _) := recv_run E parse_fdt cfg recv0 evs ctx0 in
     P_C17_bounds cfg maxpkt maxblk r = true.
+Proof. exact C17_bounds_proved. Qed.
+Print Assumptions C17_bounds_full.
+
+(* the same after every prefix of the history: every reachable state *)
+Theorem C17_bounds_every_state :
+  forall E parse_fdt cfg evs maxpkt maxblk n,
+    C17_inputs_bounded parse_fdt evs maxpkt maxblk ->
+    let '(_, r, _) := recv_run E parse_fdt cfg recv0 (firstn n evs) ctx0 in
+    P_C17_bounds cfg maxpkt maxblk r = true.
+Proof. exact C17_bounds_every_prefix. Qed.
+Print Assumptions C17_bounds_every_state.
+
+(* object level: the invariant behind it (exact block accounting, partition bound, well-formed
+   cached packets) is preserved by ObjectReceiver::push and attach_fdt *)
+Theorem C17_object_push : forall E maxpkt maxblk smax p o c,
+  G maxpkt maxblk smax o -> pkt_ok maxpkt maxblk smax p = true -> G maxpkt maxblk smax (fst (or_push E p o c)).
+Proof. exact or_push_G. Qed.
+Print Assumptions C17_object_push.
+Theorem C17_object_bounds : forall maxpkt maxblk smax o,
+  G maxpkt maxblk smax o -> P_C17_object maxpkt maxblk o = true.
+Proof. exact G_bounds. Qed.
+Print Assumptions C17_object_bounds.
+
+(* the hypotheses are needed (the former placeholder premise "True" is refuted by each of these):
+   a datagram longer than maxpkt overflows the cache bound *)
+Example C17_unbounded_datagram_refuted :
+  P_C17_bounds (c17_ex_cfg 16) 8 1024 (c17_ex_final 16 [RvPush c17_ex_pkt_plain 0%Z]) = false.
+Proof. vm_compute; reflexivity. Qed.
+(* an OTI with B * E > maxblk: the first block alone (63488 bytes) exceeds cache + 2 * maxblk *)
+Example C17_unbounded_oti_refuted :
+  P_C17_bounds (c17_ex_cfg 64) 64 1024 (c17_ex_final 64 [RvPush c17_ex_pkt_oti 0%Z]) = false.
+Proof. vm_compute; reflexivity. Qed.
+(* FEC 129: B * E = 4096 <= maxblk, but the block is sized from the source block length field
+   of the packet (200 symbols = 204800 bytes), which is not checked against B *)
+Example C17_fec129_block_length_refuted :
+  P_C17_bounds (c17_ex_cfg 64) 64 4096 (c17_ex_final 64 [RvPush c17_ex_pkt_us 0%Z]) = false
+  /\ map (fun q => r_alloc_size (snd q)) (rv_objects (c17_ex_final 64 [RvPush c17_ex_pkt_us 0%Z])) = [204800].
+Proof. vm_compute; split; reflexivity. Qed.
+(* the premise is satisfiable: the same OTI with maxblk = B * E *)
+Example C17_inputs_bounded_example :
+  C17_inputs_bounded c17_ex_nofdt [RvPush c17_ex_pkt_oti 0%Z; RvPush c17_ex_pkt_plain 1%Z] 64 65536.
+Proof. exists 0. split; [vm_compute; reflexivity|intros d i H; discriminate H]. Qed.
 
 (* (1) cache_bounded: for every object state satisfying the invariant, every packet of datagram
    length <= M and every behaviour of the writer oracles, after ObjectReceiver::push the size
